@@ -21,12 +21,13 @@ Proof.
   - eapply vals_ok; eauto.
 Qed.
 
-Theorem staircase_norep : forall C s fuel h t,
-  guard_C17_built_ok false C s = true ->
+Theorem staircase_gen : forall reps C s fuel h t,
+  guard_C17_built_ok reps C s = true -> (reps = true -> guard_C17_repetition_entry_state s = true) ->
   pipeline fuel C s = Ok (h, t) ->
   plays h (fst (staircase s)) = true /\ Qeq_bool t (snd (staircase s)) = true.
 Proof.
-  intros C s fuel h t HG HP. unfold guard_C17_built_ok in HG. unfold pipeline in HP.
+  intros reps C s fuel h t HG HS HP. unfold guard_C17_built_ok in HG. unfold pipeline in HP.
+  unfold guard_C17_repetition_entry_state, rep_stable_src in HS.
   destruct (build_program s) as [prog|] eqn:EB; cbn [bind] in HP; [|discriminate].
   pose proof (build_unroll s [] prog [] 0%Q EB eq_refl) as [R1 R2]. cbn [env_of] in R1, R2. fold (staircase s) in R1, R2.
   destruct prog as [|n0 prog].
@@ -34,6 +35,18 @@ Proof.
     inversion R1. rewrite <- R2. split; reflexivity.
   - destruct (translate (n0 :: prog)) as [cs|] eqn:ET; cbn [bind] in HP; [|discriminate].
     rewrite run_vm_binary_unary in HP.
-    destruct (translated_program_plays C _ _ _ _ _ HG ET HP) as [H1 H2].
+    destruct (translated_program_plays reps C _ _ _ _ _ HG HS ET HP) as [H1 H2].
     split; [eapply plays_of; eauto|]. rewrite H2, R2. apply Qeq_bool_iff. reflexivity.
 Qed.
+
+Theorem staircase_norep : forall C s fuel h t,
+  guard_C17_built_ok false C s = true ->
+  pipeline fuel C s = Ok (h, t) ->
+  plays h (fst (staircase s)) = true /\ Qeq_bool t (snd (staircase s)) = true.
+Proof. intros C s fuel h t HG. apply (staircase_gen false); auto. intros; discriminate. Qed.
+
+Theorem staircase_rep : forall C s fuel h t,
+  guard_C17_built_ok true C s = true -> guard_C17_repetition_entry_state s = true ->
+  pipeline fuel C s = Ok (h, t) ->
+  plays h (fst (staircase s)) = true /\ Qeq_bool t (snd (staircase s)) = true.
+Proof. intros C s fuel h t HG HS. apply (staircase_gen true); auto. Qed.
